@@ -218,7 +218,7 @@ def run_config(cfg, e):
                 if shape in ('full', 'noscore'):
                     row['label'] = STRS[si]
                 if shape in ('full', 'nolabel'):
-                    row['score'] = [0.5, 1.23456789, -2.0][r % 3]
+                    row['score'] = [-2.0, 1.23456789, 0.5][r % 3]
                 rows.append(row)
                 desc.append([shape, si])
             e.case_builder = lambda ev: {'kind': kind, 'ext': ext, 'first': first, 'rows': [
@@ -456,7 +456,7 @@ def replay(case):
                 if shape in ('full', 'noscore'):
                     row['label'] = STRS[si]
                 if shape in ('full', 'nolabel'):
-                    row['score'] = [0.5, 1.23456789, -2.0][r % 3]
+                    row['score'] = [-2.0, 1.23456789, 0.5][r % 3]
                 rows.append(row)
             p = os.path.join(d, 't.' + case['ext'])
             misc.write_tsv(p, rows, first_field=case['first'])
